@@ -44,6 +44,7 @@ fn run_once(id: usize, sc: &Scn, prefix: &[usize]) -> Result<Exec, String> {
     let run = Run {
         argv: sc.argv.clone(),
         env: vec![("STYLUA_VERIF_SCHED".into(), sched), ("STYLUA_VERIF_TRACE".into(), "$ROOT/_trace.jsonl".into()), ("STYLUA_VERIF_FAULTS".into(), "1".into())],
+        close_stdout: sc.closed_stdout,
         ..Run::default()
     };
     let o = cli::execute(id, &sc.tree, &run);
@@ -165,24 +166,46 @@ fn scenarios(thorough: bool) -> Vec<Scn> {
             }
         }
     }
-    // --check with the reader of stdout gone: the diff of the unformatted file cannot be printed (an error: status 2), and the
-    // error of the other file must not get lost whichever result the output thread sees first. Free-running sweep only
-    // (sampling): under the controlled scheduler these runs did not replay deterministically.
-    for ks in [vec![Kind::Unformatted, Kind::Unparseable], vec![Kind::Unparseable, Kind::Unformatted], vec![Kind::Unformatted, Kind::Missing], vec![Kind::Unformatted, Kind::Unformatted, Kind::Unparseable]] {
-        let mut tree = Tree::default();
-        let mut argv: Vec<String> = vec!["--color".into(), "Never".into(), "--num-threads".into(), "4".into(), "--check".into()];
-        let mut want_files = BTreeMap::new();
-        for (i, k) in ks.iter().enumerate() {
-            let p = format!("a{}.lua", i);
-            if *k != Kind::Missing {
-                // (the unparseable file is long: its result tends to arrive after the diff of the short one)
-                let b = if *k == Kind::Unparseable { format!("{}local x = = 1\n", "local y = 1\n".repeat(20000)).into_bytes() } else { k.bytes(i) };
-                tree.add(&p, &b);
-                want_files.insert(p.clone(), b);
+    // --check with the reader of stdout gone (the read end of the pipe is closed before the program starts, so every write fails):
+    // the diff of the unformatted file cannot be printed (an error: status 2), and the error of the other file must not get lost
+    // whichever result the output thread sees first. Short files under the controlled scheduler (every order of the results is a
+    // schedule); the same lists with a long unparseable file in the free-running sweep (its result tends to arrive after the diff).
+    for sweep in [false, true] {
+        for ks in [vec![Kind::Unformatted, Kind::Unparseable], vec![Kind::Unparseable, Kind::Unformatted], vec![Kind::Unformatted, Kind::Missing], vec![Kind::Unformatted, Kind::Unformatted, Kind::Unparseable], vec![Kind::Unformatted, Kind::Formatted], vec![Kind::Unformatted, Kind::Crash]] {
+            for (nt, fmt) in [(4usize, "Standard"), (1, "Standard"), (4, "Json")] {
+                if (sweep || !thorough) && (nt != 4 || fmt != "Standard") {
+                    continue;
+                }
+                if !thorough && !sweep && ks.len() > 2 {
+                    continue;
+                }
+                let mut tree = Tree::default();
+                let mut argv: Vec<String> = vec!["--color".into(), "Never".into(), "--num-threads".into(), nt.to_string(), "--check".into()];
+                if fmt != "Standard" {
+                    argv.push("--output-format".into());
+                    argv.push(fmt.into());
+                }
+                let mut want_files = BTreeMap::new();
+                for (i, k) in ks.iter().enumerate() {
+                    let p = format!("a{}.lua", i);
+                    if *k != Kind::Missing {
+                        let b = if *k == Kind::Unparseable && sweep { format!("{}local x = = 1\n", "local y = 1\n".repeat(20000)).into_bytes() } else { k.bytes(i) };
+                        tree.add(&p, &b);
+                        want_files.insert(p.clone(), b);
+                    }
+                    argv.push(p);
+                }
+                v.push(Scn {
+                    desc: format!("C19 entries={} mode=check+closed-stdout{} threads={} format={}", ks.iter().map(|k| k.letter()).collect::<String>(), if sweep { "+long" } else { "" }, nt, fmt),
+                    tree,
+                    argv,
+                    want_code: 2,
+                    want_files,
+                    sweep_only: sweep,
+                    closed_stdout: true,
+                });
             }
-            argv.push(p);
         }
-        v.push(Scn { desc: format!("C19 entries={} mode=check+closed-stdout", ks.iter().map(|k| k.letter()).collect::<String>()), tree, argv, want_code: 2, want_files, sweep_only: true, closed_stdout: true });
     }
     // one file reachable under two names (a symbolic link) from two directories with different configurations: it is one file,
     // processed once, with the configuration of the name met first — whatever the thread count and the schedule
@@ -350,7 +373,10 @@ pub fn replay(desc: &str, detail: &str) -> i32 {
 }
 
 pub fn c19(thorough: bool, stats: &mut Stats) -> Vec<Failure> {
-    let scs = scenarios(thorough);
+    let mut scs = scenarios(thorough);
+    if let Ok(f) = std::env::var("MC_E3_ONLY") {
+        scs.retain(|s| s.desc.contains(&f));
+    }
     let bounds: Vec<usize> = if thorough { vec![0, 1, 2, 3, 99] } else { vec![0, 1, 2] };
     let cap = if thorough { 20000 } else { 600 };
     let next = AtomicUsize::new(0);
